@@ -5,11 +5,11 @@ W="$1"; n="$2"
 export GOFLAGS=-mod=mod GOPROXY=off PKG_CONFIG_PATH=/tmp/fluxstub CGO_LDFLAGS='-O2 -g -L/tmp/fluxstub'
 cd "$W" || exit 3
 git checkout -q -- . ; 
-first=$(head -1 demo${n}_test.go.txt)
+first=$(head -8 demo${n}_test.go.txt | tr "\n" " ")
 dir=$(echo "$first" | grep -oE '\./[A-Za-z0-9_/-]+/?' | tail -1)
 [ -z "$dir" ] && dir=./
 case "$first" in *"root"*|*"package kapacitor"*) [ -z "$dir" ] && dir=./ ;; esac
-run=$(echo "$first" | grep -oE 'go test .*$')
+run=$(echo "$first" | grep -oE 'go test .*$' | sed -E "s/ +(package |\/\/|\*\/|\().*\$//")
 [ "$dir" = "" ] && { echo "cannot parse first line: $first"; exit 3; }
 cp demo${n}_test.go.txt "$dir/zz_demo${n}_test.go"
 echo "--- clean tree: $run"
